@@ -11,6 +11,7 @@ CONSTANTS
   Amounts <- AM_12
   MaxAdd = 3
   MaxCollect = 3
+  MaxShutdown = 0
   AllOrders = FALSE
   Dev = {}
   Hist = FALSE
